@@ -160,7 +160,30 @@ pub fn run(ctx: &Ctx) -> Report {
         }
       }
     }
+    // the range-2D construction as the code performs it (Model/Sweep2D.v: bounds sorted by (x, end
+    // before start), sweep with the set of open entries, empty unions skipped, touching equal entries
+    // fused), on the entries the library hands to make_consistent: (degraded time range, coverage)
+    let r2d_model: Option<String> = {
+      let mask = if sh_t == 0 { u64::MAX } else { !((1u64 << sh_t) - 1) };
+      let off = if sh_t == 0 { 0 } else { (1u64 << sh_t) - 1 };
+      let mut line = format!("R2DB {}", obs.len());
+      for o in &obs {
+        line.push_str(&format!(" {} {} {}", o.ta & mask, (o.tb + off) & mask, ranges_str(&o.s)));
+      }
+      let ans = orc.ask(&line);
+      ans.strip_prefix("OK ").map(|x| x.trim().to_string())
+    };
     for (name, form, r) in outs {
+      if form == "R2D" {
+        if let (Ok(out), Some(m)) = (&r, &r2d_model) {
+          rep.evaluations += 1;
+          let got = out.elems.iter().map(|(t, sp)| format!("{} {} {}", t[0].0, t[0].1, ranges_str(sp))).collect::<Vec<_>>().join(" ");
+          let got = format!("{} {}", out.elems.len(), got).trim().to_string();
+          if &got != m {
+            rep.violation(&format!("{}: the range-2D result differs, entry for entry, from the model of make_consistent + compress", name), &format!("{} # path={}", case, name), &got, m, "C09_range2d_construction_as_written");
+          }
+        }
+      }
       rep.evaluations += 1;
       rep.count(&format!("path:{}", name.split('(').next().unwrap()));
       let shown = format!("{} # path={}", case, name);
